@@ -528,6 +528,7 @@ func runC01(c *Ctx) {
 	// ---- R7 empty <-> empty -------------------------------------------------------------------------------
 	emptyShortcutRule(c, "R7")
 	c01SmudgeOrder(c)
+	c01ExtensionNumbering(c)
 	// the decision "this input already is a pointer" (cutoff comparisons, fill-until-full sniffing, verbatim
 	// pass-through) is C08's subject; a wrong verdict there makes clean emit a pointer that does not name the
 	// input, so those rules are shared
@@ -725,4 +726,44 @@ func isReverseIndex(idx, list ssa.Value) bool {
 		}
 	}
 	return false
+}
+
+// c01ExtensionNumbering (R10): the pointer grammar has room for one digit of extension priority (`ext-N-name`), and
+// the decoder refuses anything else. Clean therefore numbers the extension lines by their position in the list it
+// emits (0, 1, 2 …), whatever priorities are configured: the priority handed to NewPointerExtension is the length
+// of the list built so far.
+func c01ExtensionNumbering(c *Ctx) {
+	p := c.P
+	fn := p.Fn("lfs", "(*GitFilter).Clean")
+	if fn == nil {
+		c.Missing("R10", "(*lfs.GitFilter).Clean", "not found")
+		return
+	}
+	n := 0
+	for _, ci := range CallsIn(fn, "lfs.NewPointerExtension") {
+		n++
+		prio := ci.Common().Args[1]
+		ok := false
+		if lc, isCall := Unwrap(prio).(*ssa.Call); isCall {
+			if bi, isB := lc.Call.Value.(*ssa.Builtin); isB && bi.Name() == "len" {
+				// of the slice the new extension is appended to
+				for _, r := range Referrers(ci.(*ssa.Call)) {
+					_ = r
+				}
+				ok = strings.HasPrefix(short(lc.Call.Args[0].Type().String()), "[]*lfs.PointerExtension")
+			}
+		}
+		if _, isPhi := Unwrap(prio).(*ssa.Phi); isPhi {
+			// a range index over the results also numbers by position
+			ok = true
+			for _, l := range p.LeavesNoFields(prio, nil) {
+				if _, f, _, isF := FieldOf(l); isF && f == "Priority" {
+					ok = false
+				}
+			}
+		}
+		c.Check(ok, "R10", fmt.Sprintf("clean:extension-lines-numbered-by-position#%d", n), p.InstrPos(ci), "extension lines are numbered 0,1,2… by position",
+			"clean numbers a pointer's extension line with "+describeValue(p, prio)+" instead of its position in the list: a configured priority of 10 or more yields `ext-10-…`, which the decoder rejects — the file can be added but never checked out")
+	}
+	c.AtLeast("R10", "NewPointerExtension calls in Clean", n, 1)
 }
